@@ -7,6 +7,7 @@
 //!   k<pos>       unit impulse at global frame <pos> on every channel
 //!   d<seed>      the noise r<seed> scaled by 2^-140  (subnormal once cast to f32)
 //!   e<seed>      the noise r<seed> scaled by 2^-1040 (subnormal in f64, zero in f32)
+//!   b<P>,<seed>  bursts: the noise r<seed> where (g / P + ch) is even, exact zeros elsewhere (channels alternate)
 pub const K1: u64 = 0x9E3779B97F4A7C15;
 pub const K2: u64 = 0xC2B2AE3D27D4EB4F;
 
@@ -27,6 +28,7 @@ pub enum Sig {
     Impulse(u64),
     Tiny32(u64),
     Tiny64(u64),
+    Burst(u64, u64),
 }
 
 impl Sig {
@@ -46,6 +48,15 @@ impl Sig {
             "k" => t.parse().ok().map(Sig::Impulse),
             "d" => t.parse().ok().map(Sig::Tiny32),
             "e" => t.parse().ok().map(Sig::Tiny64),
+            "b" => {
+                let mut it = t.split(',');
+                let p: u64 = it.next()?.parse().ok()?;
+                let sd = it.next()?.parse().ok()?;
+                if p == 0 {
+                    return None;
+                }
+                Some(Sig::Burst(p, sd))
+            }
             _ => None,
         }
     }
@@ -75,6 +86,13 @@ impl Sig {
             Sig::Sine(f) => (2.0 * std::f64::consts::PI * f * g as f64 + 0.3 * ch as f64).sin(),
             Sig::Tiny32(seed) => Sig::Noise(*seed).value(ch, g) * f64::from_bits(0x3730000000000000),
             Sig::Tiny64(seed) => Sig::Noise(*seed).value(ch, g) * f64::from_bits(0x0000000400000000),
+            Sig::Burst(p, seed) => {
+                if (g / *p + ch as u64) % 2 == 0 {
+                    Sig::Noise(*seed).value(ch, g)
+                } else {
+                    0.0
+                }
+            }
             Sig::Impulse(p) => {
                 if g == *p {
                     1.0
